@@ -15,7 +15,8 @@ EXPLANATION = (
     "cache invalidation performs all of forget-concluded-data / unregister / delete, and is wired through "
     "cache_observers.  R13.4: FilteredResourceObserver refreshes its change indicator after each reported event.  "
     "R13.5: a handler registered on a *raw* observer that indexes per file either handles folder events or "
-    "invalidates wholesale.  Sufficiency of invalidation for every query is not decided."
+    "invalidates wholesale.  R13.6: in the filtered observer every reported resource is the one that was tested "
+    "(guard/action agreement) and a move covers the parents of both ends.  Sufficiency of invalidation for every query is not decided."
 )
 ASSUMPTIONS = ["required event sets per cache are a hand-confirmed table (sa/rules/c13.py REQUIRED) with reasons"]
 
@@ -272,6 +273,54 @@ def check(ctx, res) -> None:
                 f"FilteredResourceObserver._perform_changes reports {kinds} without "
                 + ("clearing" if gone_kind else "refreshing") + " the stored change indicator: the next validate() reports the same change again or misses a new one")
     res.floor("R13.4", "report loops", n134, 3)
+
+    # ---- R13.6 the filtered observer reports what it tested (guard/action agreement) and covers both ends of a move
+    n136 = 0
+    for mname, m in sorted(fro.methods.items()):
+        if not mname.startswith("_update_changes_caused_by"):
+            continue
+        cfg = CFG(m.node)
+        # loop variables ranging over a tuple/list literal of parameters
+        ranges = {}
+        for l in walk_local(m.node):
+            if isinstance(l, ast.For) and isinstance(l.target, ast.Name) and isinstance(l.iter, (ast.Tuple, ast.List)):
+                ranges[l.target.id] = [norm(e) for e in l.iter.elts]
+        tested_parents = set()
+        for n in cfg.nodes:
+            if n.kind != "stmt" or n.ast is None:
+                continue
+            for c in calls_in(n.ast):
+                if not (isinstance(c.func, ast.Attribute) and c.func.attr.startswith("add_") and c.args):
+                    continue
+                n136 += 1
+                a0 = c.args[0]
+                gs = cfg.guards(n.id)
+                if isinstance(a0, ast.Attribute) and a0.attr == "parent":
+                    subj = norm(a0.value)
+                    ok = any(pol and isinstance(t, ast.Call) and call_name(t) == "_is_parent_changed" and t.args and norm(t.args[0]) == subj
+                             for t, pol in gs)
+                    what = f"add_changed({ast.unparse(a0)}) is guarded by _is_parent_changed({ast.unparse(a0.value)})"
+                    bad = (f"{mname}: reports {ast.unparse(a0)} as changed under a test on a different resource "
+                           f"({[ast.unparse(t) for t, p in gs if isinstance(t, ast.Call)]}): the parent folder of the resource actually tested is never "
+                           "reported, so a cached package keeps a stale child table")
+                    if ok:
+                        tested_parents |= set(ranges.get(a0.value.id, [subj])) if isinstance(a0.value, ast.Name) else {subj}
+                else:
+                    subj = norm(a0)
+                    in_loop = [l for l in cfg.loop_guards(n.id)]
+                    ok = any(pol and isinstance(t, ast.Compare) and isinstance(t.ops[0], ast.In) and norm(t.left) == subj for t, pol in gs) or \
+                        any(isinstance(l, ast.For) and norm(l.target).replace("Store", "Load") == subj for l in in_loop)
+                    what = f"{c.func.attr}({ast.unparse(a0)}) is guarded by a membership test on the same resource"
+                    bad = f"{mname}: {c.func.attr}({ast.unparse(a0)}) is not guarded by a test that this very resource is watched"
+                res.add("R13.6", f"{mname}|{c.func.attr}({ast.unparse(a0)})", ok, f"{m.unit.rel}:{c.lineno}", what if ok else bad)
+        if mname.endswith("_moved"):
+            ps = [norm(ast.Name(id=p, ctx=ast.Load())) for p in param_names(m.node)[2:4]]
+            missing = [p for p in ps if p not in tested_parents]
+            res.add("R13.6", f"{mname}|both-parents", not missing, m.where,
+                    "a move reports the (watched) parent folders of both the source and the destination as changed" if not missing else
+                    "a move does not report the watched parent folder of " + ("the destination" if len(missing) == 1 and missing[0] == ps[-1] else "both ends")
+                    + " as changed: a package whose folder received a moved module keeps answering from its old child table")
+    res.floor("R13.6", "report calls in the filtered observer", n136, 6)
 
     # ---- R13.5 raw per-file observers and folder events
     n135 = 0
